@@ -55,6 +55,9 @@ type importRun struct {
 type oracle struct {
 	p   *chaincfg.Params
 	now time.Time
+	// cps are the hard-coded filter-header checkpoints in force for the
+	// case's network, by height (nil: none).
+	cps map[int]chainhash.Hash
 	// headersCompared counts block and filter header comparisons made.
 	headersCompared int64
 }
@@ -145,6 +148,20 @@ func (o *oracle) evaluate(pre, post *snap, fv *fileView, run importRun) []verdic
 		}
 	}
 
+	// Whatever the outcome, nothing the import added to the filter store
+	// contradicts a hard-coded filter-header checkpoint (the one validation
+	// filter headers get).
+	for h := ft0 + 1; h <= ft; h++ {
+		if want, ok := o.cps[h]; ok {
+			o.headersCompared++
+			if post.Filters[h] != want {
+				add(kind+"-filter-contradicts-checkpoint", "the import added, at height %d, filter header %v to the filter "+
+					"store although the hard-coded filter-header checkpoint for that height is %v", h, post.Filters[h], want)
+				break
+			}
+		}
+	}
+
 	if run.ok {
 		// Success: both stores reach exactly the file's last height (or
 		// stay where they were if they were already beyond it).
@@ -193,9 +210,16 @@ func (o *oracle) evaluate(pre, post *snap, fv *fileView, run importRun) []verdic
 
 // mustFailReason derives, from the file as written and the stores before the
 // import, whether the input is one that the import has to refuse.
-func mustFailReason(sp *Spec, pre *snap, fv *fileView) string {
+func mustFailReason(sp *Spec, pre *snap, fv *fileView, cps map[int]chainhash.Hash) string {
 	if sp.Container != "" {
 		return "the import files are malformed (" + sp.Container + ")"
+	}
+	// A file holding an invalid header: its filter header at a height with a
+	// hard-coded filter-header checkpoint is not the checkpointed one.
+	if h := cpContradiction(cps, fv); h >= 0 {
+		got, _ := fv.filter(h)
+		return fmt.Sprintf("the file's filter header at height %d (%v) contradicts the hard-coded filter-header "+
+			"checkpoint for that height (%v)", h, got, cps[h])
 	}
 	eff := min(pre.bt(), pre.ft())
 	if fv.start > eff+1 {
